@@ -46,6 +46,9 @@ MUTS = [
   "            dtype_to_tensor_type(self._elem_type), self.shape\n",
   "            dtype_to_tensor_type(self._elem_type), None if self.shape is None else [d if isinstance(d, int) else None for d in self.shape]\n"),
  ("constructor: concat ignores its axis argument", V17, '            axis=AttrInt64(axis, name="axis"),\n        ),\n        _Concat.Inputs(', '            axis=AttrInt64(0, name="axis"),\n        ),\n        _Concat.Inputs('),
+ ("dummy subgraph: every body output typed like the first one", S,
+  "        value_infos.append(arr.unwrap_type()._to_onnx_value_info(outer))\n        out = f\"__dummy_output{i}\"\n        outputs.append(arr.unwrap_type()._to_onnx_value_info(out))",
+  "        arr = list(graph.requested_results.values())[0]\n        value_infos.append(arr.unwrap_type()._to_onnx_value_info(outer))\n        out = f\"__dummy_output{i}\"\n        outputs.append(arr.unwrap_type()._to_onnx_value_info(out))"),
  ("Compress fix reverted", V17, "        if self.inputs.input.type is None or self.inputs.condition.type is None:\n            return {}\n", ""),
  ("Compress no longer asks ONNX", V17, "        self.infer_output_types_onnx()\n        if self.inputs.input.type is None", "        if self.inputs.input.type is None"),
 ]
